@@ -1,3 +1,4 @@
+CONSTANT Wrong = FALSE
 SPECIFICATION SpecQuick
 INVARIANT RoundTrip
 INVARIANT ConsumesWholePdu
